@@ -66,36 +66,25 @@ Proof.
 Qed.
 
 (* ------------------------------------------------------------------ UPDATE leaves the index alone *)
-Lemma upd_sidx_nobare : forall sch v sel ix,
-  int_pk sch = false -> (forall e, In e ix -> s_suf e <> None) -> upd_sidx sch v sel ix = ix.
+(* an UPDATE of c0 never touches the index on c1 *)
+Lemma upd_multi_sidx : forall sch st v w r st2 es,
+  upd_multi sch st C0 v w = (r, st2, es) -> sidx st2 = sidx st /\ nextid st2 = nextid st.
 Proof.
-  intros sch v sel ix Hpk. unfold upd_sidx. destruct (s_sec sch); [|reflexivity].
-  induction sel as [|x sel IH]; intro Hnb; cbn [fold_left]; [reflexivity|].
-  assert (Hx : upd_sidx_row sch v ix x = ix).
-  { unfold upd_sidx_row. rewrite Hpk, andb_false_r.
-    destruct (is_null (c1 (e_row x))); [reflexivity| apply sdel_bare_nobare; exact Hnb]. }
-  rewrite Hx. apply IH. exact Hnb.
+  intros sch st v w r st2 es H. unfold upd_multi in H. cbv zeta in H. cbn [is_c0] in H.
+  destruct (negb match select sch w st with [] => true | _ :: _ => false end && true && is_pk sch && is_null v);
+    [injection H as _ <- _; split; reflexivity|].
+  destruct (true && keyed sch && negb (is_null v) && upd_dup v (kidx st) (select sch w st));
+    injection H as _ <- _; split; reflexivity.
 Qed.
 
-Lemma do_update_sidx : forall sch st sc v w r st2 es,
-  int_pk sch = false -> no_bare st ->
-  do_update sch st sc v w = (r, st2, es) -> sidx st2 = sidx st /\ nextid st2 = nextid st.
+Lemma do_update_sidx : forall sch st v w r st2 es,
+  do_update sch st C0 v w = (r, st2, es) -> sidx st2 = sidx st /\ nextid st2 = nextid st.
 Proof.
-  intros sch st sc v w r st2 es Hpk Hnb H. unfold do_update in H.
-  assert (Hs : forall sel, (if is_c0 sc then sidx st else upd_sidx sch v sel (sidx st)) = sidx st).
-  { intro sel. destruct (is_c0 sc); [reflexivity| apply upd_sidx_nobare; assumption]. }
-  destruct (pk_info sch w st) as [[id wv]|].
-  - destruct (negb (is_c0 sc && keyed sch) && negb (has_toast sch)).
-    + destruct (find_ent id (ents st)) as [x|]; [destruct (value_eqb (c0 (e_row x)) wv)|];
-        injection H as _ <- _; split; reflexivity.
-    + destruct (negb match select sch w st with [] => true | _ :: _ => false end && is_c0 sc && is_pk sch && is_null v);
-        [injection H as _ <- _; split; reflexivity|].
-      destruct (is_c0 sc && keyed sch && negb (is_null v) && existsb (uniq_clash v (kidx st)) (select sch w st));
-        injection H as _ <- _; cbn [sidx nextid]; [split; reflexivity| rewrite Hs; split; reflexivity].
-  - destruct (negb match select sch w st with [] => true | _ :: _ => false end && is_c0 sc && is_pk sch && is_null v);
-      [injection H as _ <- _; split; reflexivity|].
-    destruct (is_c0 sc && keyed sch && negb (is_null v) && existsb (uniq_clash v (kidx st)) (select sch w st));
-      injection H as _ <- _; cbn [sidx nextid]; [split; reflexivity| rewrite Hs; split; reflexivity].
+  intros sch st v w r st2 es H. unfold do_update in H.
+  destruct (pk_info sch w st) as [[id wv]|]; [|exact (upd_multi_sidx _ _ _ _ _ _ _ H)].
+  destruct (negb (idx_mod sch C0) && negb (has_toast sch)); [|exact (upd_multi_sidx _ _ _ _ _ _ _ H)].
+  destruct (find_ent id (ents st)) as [x|]; [destruct (live x && value_eqb (c0 (e_row x)) wv)|];
+    injection H as _ <- _; split; reflexivity.
 Qed.
 
 (* ------------------------------------------------------------------ along a covered body *)
@@ -114,10 +103,10 @@ Lemma sec_inv_same : forall st0 s st' tx', sec_inv st0 s -> sidx st' = sidx (fst
 Proof. intros st0 s st' tx' [(ext & E & Hf) Hn] Hs Hx. split; [exists ext; cbn [fst]; rewrite Hs; split; assumption | cbn [fst]; lia]. Qed.
 
 Lemma sec_inv_step : forall sch outer st0 o s,
-  int_pk sch = false -> no_bare st0 -> sec_inv st0 s -> clean_op sch outer o s = true ->
+  int_pk sch = false -> no_bare st0 -> sec_inv st0 s -> clean_op sch outer o s = true -> sec_clean o = true ->
   sec_inv st0 (snd (exec sch o s)).
 Proof.
-  intros sch outer st0 o [st tx] Hpk Hnb0 Hinv Hcl.
+  intros sch outer st0 o [st tx] Hpk Hnb0 Hinv Hcl Hsc.
   pose proof (sec_inv_nobare st0 (st, tx) Hnb0 Hinv) as Hnb. cbn [fst] in Hnb.
   destruct o as [rows|sc v w|w| | | |n|n|n| | ]; cbn [clean_op fst] in Hcl; try discriminate; cbn [exec].
   - destruct (do_insert sch st rows) as [[r st'] es] eqn:E. cbn [snd].
@@ -126,8 +115,9 @@ Proof.
     exists (ext ++ ext'). split; [rewrite E1, F1, app_assoc; reflexivity|].
     intros e He. apply in_app_or in He. destruct He as [He|He]; [apply F2; exact He|].
     destruct (E2 e He) as (id & Hs & Hl). exists id. split; [exact Hs|lia].
-  - destruct (do_update sch st sc v w) as [[r st'] es] eqn:E. cbn [snd].
-    destruct (do_update_sidx _ _ _ _ _ _ _ _ Hpk Hnb E) as [E1 E2].
+  - destruct sc; [|discriminate Hsc].
+    destruct (do_update sch st C0 v w) as [[r st'] es] eqn:E. cbn [snd].
+    destruct (do_update_sidx _ _ _ _ _ _ _ E) as [E1 E2].
     apply (sec_inv_same st0 (st, tx)); assumption.
   - destruct tx; cbn [snd]; exact Hinv.
   - destruct tx as [t|]; cbn [snd]; [|exact Hinv]. apply (sec_inv_same st0 (st, Some t)); [exact Hinv| |]; reflexivity.
@@ -145,10 +135,12 @@ Qed.
 
 Lemma sec_inv_run : forall sch outer st0 ops s,
   int_pk sch = false -> no_bare st0 -> sec_inv st0 s -> clean_run sch outer ops s = true ->
+  forallb sec_clean ops = true ->
   sec_inv st0 (run sch ops s).
 Proof.
-  intros sch outer st0 ops. induction ops as [|o ops IH]; intros s Hpk Hnb Hinv Hcl; cbn [run]; [exact Hinv|].
+  intros sch outer st0 ops. induction ops as [|o ops IH]; intros s Hpk Hnb Hinv Hcl Hsc; cbn [run]; [exact Hinv|].
   cbn [clean_run] in Hcl. apply andb_true_iff in Hcl. destruct Hcl as [H1 H2].
+  cbn [forallb] in Hsc. apply andb_true_iff in Hsc. destruct Hsc as [S1 S2].
   apply IH; try assumption. eapply sec_inv_step; eassumption.
 Qed.
 
@@ -161,7 +153,7 @@ Lemma flat_map_dangling : forall es lo v ext,
   flat_map (fun e : sent =>
               if value_eqb (s_key e) v
               then match sent_rid e with
-                   | Some id => match find_ent id es with Some x => [e_row x] | None => [] end
+                   | Some id => match find_ent id es with Some x => if live x then [e_row x] else [] | None => [] end
                    | None => []
                    end
               else []) ext = [].
@@ -181,23 +173,23 @@ Proof.
   intros sch [ea ra ka sa na] [eb rb kb sb nb] ext v He Hb Hs Hf. cbn [ents sidx nextid] in *. subst ea sa.
   unfold lookup1, scan, get_row. cbn [ents sidx].
   destruct (s_sec sch && indexable v); [|reflexivity].
-  rewrite flat_map_app. rewrite (flat_map_dangling eb nb v ext); [apply app_nil_r| |exact Hf].
+  rewrite flat_map_app. rewrite (flat_map_dangling eb nb v ext); [rewrite app_nil_r; reflexivity| |exact Hf].
   intros e He. apply (Hb e). exact He.
 Qed.
 
 (* ------------------------------------------------------------------ the theorems *)
 Lemma rollback_restores_secondary_l : forall sch st body fin,
   int_pk sch = false -> inv sch st -> no_bare st ->
-  clean_run sch [] body (st, Some (mkTxn [] [])) = true ->
+  clean_run sch [] body (st, Some (mkTxn [] [])) = true -> forallb sec_clean body = true ->
   fin = ORollback \/ fin = ODrop ->
   forall v, lookup1 sch (fst (run sch (OBegin :: body ++ [fin]) (st, None))) v = lookup1 sch st v.
 Proof.
-  intros sch st body fin Hpk Hi Hnb Hcl Hfin v.
+  intros sch st body fin Hpk Hi Hnb Hcl Hsc Hfin v.
   destruct (rollback_restores_l sch st body fin Hi Hcl Hfin) as [Hcore _].
   unfold core3 in Hcore. injection Hcore as He _ _.
   assert (Hsec : sec_inv st (run sch (OBegin :: body ++ [fin]) (st, None))).
   { cbn [run exec snd]. rewrite run_app.
-    pose proof (sec_inv_run sch [] st body _ Hpk Hnb (sec_inv_start st (Some (mkTxn [] []))) Hcl) as Hq.
+    pose proof (sec_inv_run sch [] st body _ Hpk Hnb (sec_inv_start st (Some (mkTxn [] []))) Hcl Hsc) as Hq.
     destruct (run sch body (st, Some (mkTxn [] []))) as [st' tx'] eqn:Er.
     pose proof (sec_inv_nobare st _ Hnb Hq) as Hnb'. cbn [fst] in Hnb'.
     destruct Hfin as [-> | ->]; cbn [run exec]; destruct tx' as [t'|]; cbn [snd]; try exact Hq;
@@ -210,14 +202,15 @@ Lemma savepoint_restores_secondary_l : forall sch st t n body,
   int_pk sch = false -> inv sch st -> no_bare st -> zin n (names_of (sps t)) = false ->
   clean_run sch (names_of (sps t) ++ [n]) body
             (st, Some (mkTxn (wlog t) (sps t ++ [(n, length (wlog t))]))) = true ->
+  forallb sec_clean body = true ->
   forall v, lookup1 sch (fst (run sch (OSave n :: body ++ [ORollTo n]) (st, Some t))) v = lookup1 sch st v.
 Proof.
-  intros sch st t n body Hpk Hi Hnb Hfresh Hcl v.
+  intros sch st t n body Hpk Hi Hnb Hfresh Hcl Hsc v.
   destruct (savepoint_restores_l sch st t n body Hi Hfresh Hcl) as [Hcore _].
   unfold core3 in Hcore. injection Hcore as He _ _.
   assert (Hsec : sec_inv st (run sch (OSave n :: body ++ [ORollTo n]) (st, Some t))).
   { cbn [run exec snd]. rewrite run_app.
-    pose proof (sec_inv_run sch _ st body _ Hpk Hnb (sec_inv_start st (Some (mkTxn (wlog t) (sps t ++ [(n, length (wlog t))])))) Hcl) as Hq.
+    pose proof (sec_inv_run sch _ st body _ Hpk Hnb (sec_inv_start st (Some (mkTxn (wlog t) (sps t ++ [(n, length (wlog t))])))) Hcl Hsc) as Hq.
     destruct (run sch body (st, Some (mkTxn (wlog t) (sps t ++ [(n, length (wlog t))])))) as [st' tx'] eqn:Er.
     pose proof (sec_inv_nobare st _ Hnb Hq) as Hnb'. cbn [fst] in Hnb'.
     cbn [run exec]. destruct tx' as [t'|]; [|cbn [snd]; exact Hq].
